@@ -114,7 +114,7 @@ Record case := MkCase {
   c_batch : seq nat;
   c_max_iter : nat;
   c_A : seq fmat;                 (* the symmetric matrices, one per batch member (row-major over the batch shape) *)
-  c_init : option (bool * seq nat * nat * nat * fcols);   (* dtype_ok, init batch shape, size(-2), size(-1), flat columns *)
+  c_init : option (bool * bool * seq nat * nat * nat * fcols);   (* dtype_ok, 1-D, init batch shape, size(-2), size(-1), flat columns *)
   c_num_init : nat;
   c_randn : fcols;
   c_tol : float;
@@ -129,10 +129,10 @@ Record case := MkCase {
    gen/Consts.v, regenerated from lanczos.py on every run *)
 
 Definition args_of (c : case) : lz_args float :=
-  let nv := if c_init c is Some (_, _, _, nv, _) then nv else c_num_init c in
+  let nv := if c_init c is Some (_, _, _, _, nv, _) then nv else c_num_init c in
   MkArgs (c_callable c) (tensor_mm (if c_f32 c then ArFloat32 else ArFloat) nv (c_A c))
          (c_max_iter c) (c_n c) (c_batch c)
-         (if c_init c is Some (d, b, n', nv, X) then Some (MkInit d b n' nv X) else None)
+         (if c_init c is Some (d, od, b, n', nv, X) then Some (MkInit d od b n' nv X) else None)
          (c_num_init c) (c_randn c) (c_tol c) brk_lit n_extra_lit (c_debug c).
 
 Definition run_model (c : case) : res (lz_out float) :=
@@ -286,4 +286,15 @@ Fixpoint bad_hcases (cs : seq hcase) (i : nat) : seq nat :=
   | [::] => [::]
   | c :: r => let k := check_hcase c in
               if k == 0 then bad_hcases r i.+1 else (i * 16 + k) :: bad_hcases r i.+1
+  end.
+
+(* root_inv_decomposition's argument check on initial_vectors (api-level guard cases): raised RuntimeError or not *)
+Record gcase := MkGCase { gc_batch : seq nat; gc_n : nat; gc_ivs : seq nat; gc_raised : bool }.
+Definition check_gcase (c : gcase) : nat :=
+  if root_inv_guard_raises (gc_batch c) (gc_n c) (gc_ivs c) == gc_raised c then 0 else 1.
+Fixpoint bad_gcases (cs : seq gcase) (i : nat) : seq nat :=
+  match cs with
+  | [::] => [::]
+  | c :: r => let k := check_gcase c in
+              if k == 0 then bad_gcases r i.+1 else (i * 16 + k) :: bad_gcases r i.+1
   end.
